@@ -141,6 +141,12 @@ func vfC20Scenarios(thorough bool) []*vfGWScenario {
 		Cfg: vfGWCfg{Router: "gossip", Peers: peers, Topics: []string{"t"}, Params: "d2", Scoring: true, ScoreTopics: true, SeenTTL: 2, Workers: 2, Prefix: prefix, Extra: map[string]string{"seqno_validator": "1"},
 			Validators: []vfValCfg{{Name: "V", Topic: "t", Gated: true, Verdict: "A"}}},
 		Alphabet: []string{"pub:a:s1", "pub:b:s2", "pub:a:s3", "pub:b:s1", "vrel:V:s1:A", "vrel:V:s2:A", "vrel:V:s3:A", "vrel:V:s2:R", "adv:63000"}, Msgs: msgs, Depth: d})
+	// the same with a node-wide validation throttle of one: while a message is parked in V, whatever else arrives finds
+	// the throttle full -- and is dropped, never waved through without having seen the sequence-number validator
+	out = append(out, &vfGWScenario{Name: "in-flight-throttled",
+		Cfg: vfGWCfg{Router: "gossip", Peers: peers, Topics: []string{"t"}, Params: "d2", Scoring: true, ScoreTopics: true, SeenTTL: 2, Workers: 2, ValThrottle: 1, Prefix: prefix, Extra: map[string]string{"seqno_validator": "1"},
+			Validators: []vfValCfg{{Name: "V", Topic: "t", Gated: true, Verdict: "A"}}},
+		Alphabet: []string{"pub:a:s1", "pub:b:s2", "pub:a:s3", "pub:b:s1", "pub:b:s0", "vrel:V:s1:A", "vrel:V:s2:A", "vrel:V:s3:A", "adv:63000"}, Msgs: msgs, Depth: d})
 	// the validator registered inline, in front of other validators (inline and asynchronous) that accept: its Ignore
 	// must survive whatever the later ones say
 	for _, inlineTopic := range []bool{true, false} {
